@@ -32,6 +32,10 @@ def swarm_config(rng, case, engines=(1, 1, 2), allow_local=True):
     if rng.random() < 0.3:
         c['options'] = dict(c.get('options') or {})
         c['options']['scheduler.fixed_delay'] = rng.choice([1, 2, 5])
+    # overlap windows: a transaction that has not written yet may be parked
+    # before its first write while transactions of other nodes (the other
+    # engine, the API process) commit (mistralsim.prims.TxLock)
+    c['overlap'] = rng.choice([0.0, 0.0, 0.5, 1.0])
     return c
 
 
